@@ -99,7 +99,7 @@ def run(ctx):
     for e in dc:
         it = e.loops()[-1][2]
         c = ("bv", 0)
-        want = ("map", c, c, cells, T.b_not(T.ige(T.call("len", (T.attr(T.idx(cells, c), "vertices"),)), 1)))
+        want = ("map", T.idx(c, T.num(0)), c, T.call(("m", "items"), (cells,)), T.b_not(T.ige(T.call("len", (T.attr(T.idx(c, T.num(1)), "vertices"),)), 1)))
         okd = okd and T.alpha(it) == T.alpha(want) and e.key == ("bv", e.loops()[-1][1])
     ctx.check(okd, "GUARD", f"{GM} / GUARD / a cell is removed only when its cycle is empty", ctx.where(f),
               "cells_to_remove = [c for c in cells if len(cells[c].vertices) == 0]",
